@@ -12,6 +12,27 @@ THEOREMS = [
     'Nb.PySlice.sel_lt',
     'Nb.PySlice.sel_length',
     'Nb.C06.fillSlicerOrig_counterexample',
+    'Nb.C06.positiveSliceOrig_counterexample',
+    # stage A (per axis)
+    'Nb.C06.fillSlicer_sel',
+    'Nb.C06.fullSlicerLen_fill',
+    'Nb.C06.slice2len_spec',
+    'Nb.C06.positiveSlice_sel',
+    'Nb.C06.optimizeSlicer_sound',
+    'Nb.C06.optimizeSlicer_canon',
+    'Nb.C06.optimizeSlicer_error_iff',
+    'Nb.C06.thresholdHeuristic_int_not_contiguous',
+    'Nb.C06.optimizeSlicer_int_full_iff',
+    'Nb.C06.optimizeSlicer_slice_full_iff',
+    # stage B (segments)
+    'Nb.C06.optimizeLoop_canon',
+    'Nb.C06.segments_cover',
+    'Nb.C06.segments_in_extent',
+    # stage C (whole)
+    'Nb.C06.fileslice_eq_numpy',
+    'Nb.C06.fileslice_threshold_eq_numpy',
+    'Nb.C06.reads_within_extent',
+    'Nb.C06.fileslice_int_out_of_range',
 ]
 ASSUMPTIONS = [
     'hand-written Lean model of nibabel/fileslice.py (Model/C06.lean), tied to the code by the '
